@@ -388,7 +388,7 @@ fn candidates(family: Family, ast: &Ast, f: &Frame, thin: bool) -> Vec<(&'static
         let s = sites(&f.body);
         let name_path = s.iter().find(|(_, t)| *t == Tag::Str(StrKind::ProtoName)).map(|x| x.0.clone()).unwrap();
         let level_path = s.iter().find(|(_, t)| *t == Tag::ProtoLevel).map(|x| x.0.clone()).unwrap();
-        let names: &[&[u8]] = &[b"MQTT", b"MQIsdp", b"MQTt", b"MQIsd", b"", b"MQTTT", b"mqtt", b"MQISDP"];
+        let names: &[&[u8]] = &[b"MQTT", b"MQIsdp", b"MQTt", b"MQIsd", b"", b"MQTTT", b"mqtt", b"MQISDP", b"MQIsdpX", b"MQTTMQTT"];
         for name in names {
             for level in thin_bytes(thin, 0..=255u8) {
                 let known = matches!((&name[..], level), (b"MQIsdp", 3) | (b"MQTT", 4) | (b"MQTT", 5));
